@@ -357,6 +357,43 @@ theorem cf_builds_forecast_iff (existsFile : Bool) (loader : Option Bool) (forma
   | none => by_cases h1 : type = "ascii" <;> by_cases h2 : type = "ucerf3" <;> simp [h1, h2]
   | some b => cases b <;> simp
 
+/-! ## keywords of `load_catalog_forecast` that must not change the catalogs -/
+
+/-- **without `apply_filters` no keyword touches the catalogs**: whatever `filters`, `apply_mct`, `filter_spatial`, `region`,
+    `store` are, and whatever the filter stage would do, a pass delivers exactly what the loader decodes -/
+theorem delivered_unfiltered (k : CfKw) (stage : Catalog → Catalog) (decoded : List Catalog) (h : k.applyFilters = false) :
+    delivered k stage decoded = decoded := by
+  simp [delivered, CfKw.stageActive, h]
+
+/-- `apply_filters=True` with nothing configured (no filters, no mct, no spatial filter) is a no-op too -/
+theorem delivered_nothing_configured (k : CfKw) (stage : Catalog → Catalog) (decoded : List Catalog)
+    (h1 : k.hasFilters = false) (h2 : k.applyMct = false) (h3 : k.filterSpatial = false) :
+    delivered k stage decoded = decoded := by
+  simp [delivered, CfKw.stageActive, h1, h2, h3]
+
+/-- `store` does not matter: the second pass gives what the first gave, stored or re-read -/
+theorem second_pass_same (k : CfKw) (stage : Catalog → Catalog) (decoded : List Catalog) :
+    secondPass k stage decoded = delivered k stage decoded := by
+  unfold secondPass; split <;> rfl
+
+/-- **the property through `load_catalog_forecast` with any inert keywords**: a text whose records read as the encoding of
+    catalogs 0..n−1 is delivered as exactly those catalogs -/
+theorem forecastPass_encode (k : CfKw) (stage : Catalog → Catalog) (text : String) (cats : List (List Event)) (hne : cats ≠ [])
+    (choices : List Bool) (header : Bool) (h : AllReadAs (csvRecordsML text) (encode cats choices header))
+    (hk : k.applyFilters = false ∨ (k.hasFilters = false ∧ k.applyMct = false ∧ k.filterSpatial = false)) :
+    forecastPass k stage text = some (number cats) := by
+  unfold forecastPass
+  rw [decodeTextML_encode_records text cats hne choices header h]
+  simp only []
+  rcases hk with hk | ⟨h1, h2, h3⟩
+  · rw [delivered_unfiltered k stage _ hk]
+  · rw [delivered_nothing_configured k stage _ h1 h2 h3]
+
+example : delivered ⟨false, true, true, true, true, false⟩ (fun _ => ⟨none, []⟩) [⟨some 0, []⟩, ⟨some 1, []⟩]
+    = [⟨some 0, []⟩, ⟨some 1, []⟩] := by decide +kernel
+example : delivered ⟨true, true, false, false, false, true⟩ (fun _ => ⟨none, []⟩) [⟨some 0, []⟩] = [⟨none, []⟩] := by
+  decide +kernel
+
 /-! ## non-vacuity (kernel evaluation) -/
 
 /-- an event id that contains a line break (quoted by `csv.writer`), a placeholder row, CRLF ends -/
